@@ -83,6 +83,16 @@ def _disc(g, chi, wedge):
     return (a * a + b * b - c * c) / max(a * a + b * b, 1e-300)
 
 
+def _plain(x):
+    if isinstance(x, (list, tuple)):
+        return [_plain(y) for y in x]
+    if isinstance(x, np.ndarray):
+        return x.tolist()
+    if isinstance(x, np.generic):
+        return x.item()
+    return x
+
+
 def cond_ok(M, g, tth, om, eta, tol=1e-7):
     gt = M @ g
     s2, st = math.sin(tth / 2) ** 2, math.sin(tth)
@@ -97,7 +107,7 @@ def check_one(mn, m, g, tth, chi, wedge):
     inp = {'g': list(map(float, gin)), 'tth': tth, 'chi': chi, 'wedge': wedge}
 
     def bad(what, obs, exp):
-        out.append({'fn': '%s.%s' % (mn.lower(), what), 'input': inp, 'observed': np.asarray(obs).tolist(), 'expected': np.asarray(exp).tolist(), 'known_id': None})
+        out.append({'fn': '%s.%s' % (mn.lower(), what), 'input': inp, 'observed': _plain(obs), 'expected': _plain(exp), 'known_id': None})
     disc = _disc(gs, chi, wedge)
     nsol = None if abs(disc) < 1e-6 else (2 if disc > 0 else 0)
     # general
